@@ -15,7 +15,9 @@
 // copy-negzero-not-copied the `!=` guards of the generated setters that 59db810 replaced by
 // pkg.<T>Equal; clone-loses-optional-presence and cmp-stale-optional name the two defects of
 // struct.go.tmpl that 82431a4 repaired (Clone dropped optionalFieldsPresent; Cmp<Struct> compared
-// the values stored in optional fields absent on both sides). They all stay as oracles (a
+// the values stored in optional fields absent on both sides); frozen-silent-mutation and
+// frozen-mutation-before-panic the two defects of markModified / the setters that 1d57428 repaired
+// (see the frozen section for the three residual findings). They all stay as oracles (a
 // regression is reported under the same name, which is no longer a known finding).
 //
 // Optional fields: fill leaves an optional field present, absent with a stale stored value (Set
@@ -757,62 +759,345 @@ func optCounts(st string) (present, stale, zero int) {
 
 // ---------------------------------------------------------------- frozen values
 
-// A frozen dictionary struct must reject every mutation: the call panics and the value is unchanged.
+// A frozen dictionary struct must reject every mutation: the call panics and the value is unchanged
+// (since /repo 1d57428 markModified checks frozen before its fast path and every generated setter
+// marks before it mutates). The section enumerates EVERY single mutating call of the public API on
+// a frozen Resource / Scope / Metric and everything reachable through its getters:
+//
+//	struct     Set<Field>(other value) per primitive field, CopyFrom(other)
+//	multimap   SetKey(i, other) / SetValue(i, other) per element, EnsureLen(n+1), EnsureLen(n-1), CopyFrom(other)
+//	oneof      SetType(k) per other alternative and None, Set<Alt>(other value) per primitive alternative, CopyFrom(other)
+//	array      Append, EnsureLen(n+1), EnsureLen(n-1), CopyFromSlice(other) (primitive elements)
+//
+// recursively through Value(i) / At(i) / the current alternative. Each call is made on a freshly
+// built frozen subject and on an unfrozen twin with the same state: when the call changes the twin
+// (a real mutation attempt; setting the value already held or EnsureLen(Len()) is not one) the
+// frozen subject MUST panic, and in every case it must be unchanged.
+//
+// Subjects: "built" (Init + setters: the modified bit of every field set is already set - the
+// fast path of markModified), "empty" (Init only: no modified bit set), "copy" (Init + CopyFrom),
+// "clone" (Clone() of a built value: modified bits clear).
+//
+// Signatures: frozen-mutation-before-panic (panicked, but the value changed) and
+// frozen-silent-mutation (no panic, value changed) are the two defects repaired by 1d57428, kept as
+// oracles; frozen-mutation-no-panic = a real mutation attempt was swallowed without panic. Three
+// residual defects of the same kind are genuine findings of their own:
+//   - frozen-copyfrom-mutation-before-panic: copy<Multimap> (primitive keys/values) and copy<Array>
+//     (primitive elements) still assign before they mark: CopyFrom on such a member of a frozen
+//     struct, or the struct's CopyFrom with a source differing only there, panics after the change;
+//   - frozen-nested-multimap-silent-mutation: the call's modifiedFields is two or more levels below
+//     the frozen struct (a multimap inside a multimap value, e.g. a KVList in an attribute value, and
+//     everything below it): neither it nor its parent carries the frozen flag (multimap.freeze()
+//     does not freeze modifiedElems.keys/vals), so with the modified bits already set the walk up
+//     stops before it reaches the frozen struct;
+//   - frozen-clone-silent-mutation: Clone() sets no parent links (C01 finding setter-clone-unlinked),
+//     so arrays, multimaps and oneofs of a frozen clone have a nil / unlinked modifiedFields.
+type fsite struct {
+	desc   string
+	level  int  // modifiedFields levels between the call's mark target and the frozen struct's own
+	member bool // not a primitive setter of the frozen struct itself
+	do     func(root reflect.Value)
+}
+
+type fnav func(root reflect.Value) reflect.Value
+
+func otherLeaf(r *rng.R, k kind, cur string) leaf {
+	for {
+		if l := genLeaf(r, k, fPlain); l.canon() != cur {
+			return l
+		}
+	}
+}
+
+// otherObj builds a value of type t whose state differs from cur (nil when none is found).
+func otherObj(t *ty, r *rng.R, c *genCfg, depth int, cur string) *reflect.Value {
+	for try := 0; try < 8; try++ {
+		o := newObj(t)
+		fill(o, t, r, c, depth)
+		if stateOf(o, t) != cur {
+			return &o
+		}
+	}
+	return nil
+}
+
+// enumSites lists every single mutating call on the object p (reached from the root by nav).
+func enumSites(p reflect.Value, t *ty, nav fnav, level, depth int, path string, r *rng.R, c *genCfg, out *[]fsite) {
+	add := func(desc string, lvl int, member bool, do func(x reflect.Value)) {
+		*out = append(*out, fsite{desc: path + desc, level: lvl, member: member, do: func(root reflect.Value) { do(nav(root)) }})
+	}
+	sub := func(getter string, args ...reflect.Value) fnav {
+		return func(root reflect.Value) reflect.Value { return call(nav(root), getter, args...)[0] }
+	}
+	copyFromSite := func(lvl int) {
+		if !hasMethod(t, "CopyFrom") {
+			return
+		}
+		if o := otherObj(t, r, c, depth, stateOf(p, t)); o != nil {
+			add("CopyFrom("+stateOf(*o, t)+")", lvl, true, func(x reflect.Value) { call(x, "CopyFrom", *o) })
+		}
+	}
+	switch t.kind {
+	case kStruct:
+		for _, f := range t.fields {
+			f := f
+			switch {
+			case f.t.prim():
+				l := otherLeaf(r, f.t.kind, leafOf(f.t.kind, call(p, f.name)[0]).canon())
+				add("Set"+f.name+"("+l.canon()+")", level, depth > 0, func(x reflect.Value) {
+					m := meth(x, "Set"+f.name)
+					m.Call([]reflect.Value{l.arg(m.Type().In(0))})
+				})
+				if f.opt {
+					add("Unset"+f.name, level, depth > 0, func(x reflect.Value) { call(x, "Unset"+f.name) })
+				}
+			case f.t.dict:
+			default:
+				enumSites(call(p, f.name)[0], f.t, sub(f.name), level, depth+1, path+f.name+"/", r, c, out)
+			}
+		}
+		copyFromSite(level)
+	case kOneof:
+		cur := int(call(p, "Type")[0].Uint())
+		for k := 0; k <= len(t.fields); k++ {
+			k := k
+			if k != cur {
+				add(fmt.Sprintf("SetType(%d)", k), level, true, func(x reflect.Value) {
+					st := meth(x, "SetType")
+					st.Call([]reflect.Value{reflect.ValueOf(uint64(k)).Convert(st.Type().In(0))})
+				})
+			}
+			if k == 0 || !t.fields[k-1].t.prim() {
+				continue
+			}
+			f := t.fields[k-1]
+			curv := ""
+			if k == cur {
+				curv = leafOf(f.t.kind, call(p, f.name)[0]).canon()
+			}
+			l := otherLeaf(r, f.t.kind, curv)
+			add("Set"+f.name+"("+l.canon()+")", level, true, func(x reflect.Value) {
+				m := meth(x, "Set"+f.name)
+				m.Call([]reflect.Value{l.arg(m.Type().In(0))})
+			})
+		}
+		copyFromSite(level)
+		if cur != 0 && !t.fields[cur-1].t.prim() {
+			f := t.fields[cur-1]
+			enumSites(call(p, f.name)[0], f.t, sub(f.name), level, depth+1, path+f.name+"/", r, c, out)
+		}
+	case kArr:
+		n := int(call(p, "Len")[0].Int())
+		for _, nn := range []int{n + 1, n - 1} {
+			nn := nn
+			if nn >= 0 {
+				add(fmt.Sprintf("EnsureLen(%d)", nn), level, true, func(x reflect.Value) { call(x, "EnsureLen", reflect.ValueOf(nn)) })
+			}
+		}
+		if t.elem.prim() {
+			l := genLeaf(r, t.elem.kind, fPlain)
+			add("Append("+l.canon()+")", level, true, func(x reflect.Value) {
+				m := meth(x, "Append")
+				m.Call([]reflect.Value{l.arg(m.Type().In(0))})
+			})
+			var ls []leaf
+			for i := 0; i < n; i++ {
+				ls = append(ls, leafOf(t.elem.kind, call(p, "At", reflect.ValueOf(i))[0]))
+			}
+			if n > 0 {
+				ls[n-1] = otherLeaf(r, t.elem.kind, ls[n-1].canon())
+			} else {
+				ls = append(ls, genLeaf(r, t.elem.kind, fPlain))
+			}
+			add(fmt.Sprintf("CopyFromSlice(len %d, last %s)", len(ls), ls[len(ls)-1].canon()), level, true, func(x reflect.Value) {
+				m := meth(x, "CopyFromSlice")
+				sl := reflect.MakeSlice(m.Type().In(0), len(ls), len(ls))
+				for i := range ls {
+					sl.Index(i).Set(ls[i].arg(m.Type().In(0).Elem()))
+				}
+				m.Call([]reflect.Value{sl})
+			})
+			return
+		}
+		if hasMethod(t, "Append") {
+			o := newObj(t.elem)
+			fill(o, t.elem, r, c, c.maxDepth)
+			add("Append("+stateOf(o, t.elem)+")", level, true, func(x reflect.Value) { call(x, "Append", o) })
+		}
+		for i := 0; i < n; i++ {
+			iv := reflect.ValueOf(i)
+			enumSites(call(p, "At", iv)[0], t.elem, sub("At", iv), level, depth+1, fmt.Sprintf("%s[%d]/", path, i), r, c, out)
+		}
+	case kMap:
+		n := int(call(p, "Len")[0].Int())
+		for _, nn := range []int{n + 1, n - 1} {
+			nn := nn
+			if nn >= 0 {
+				add(fmt.Sprintf("EnsureLen(%d)", nn), level+1, true, func(x reflect.Value) { call(x, "EnsureLen", reflect.ValueOf(nn)) })
+			}
+		}
+		copyFromSite(level + 1)
+		for i := 0; i < n; i++ {
+			iv := reflect.ValueOf(i)
+			for _, kv := range []struct {
+				t            *ty
+				get, set, nm string
+			}{{t.key, "Key", "SetKey", "Key"}, {t.val, "Value", "SetValue", "Value"}} {
+				kv := kv
+				if kv.t.prim() {
+					l := otherLeaf(r, kv.t.kind, leafOf(kv.t.kind, call(p, kv.get, iv)[0]).canon())
+					add(fmt.Sprintf("%s(%d,%s)", kv.set, i, l.canon()), level+1, true, func(x reflect.Value) {
+						m := meth(x, kv.set)
+						m.Call([]reflect.Value{iv, l.arg(m.Type().In(1))})
+					})
+					continue
+				}
+				enumSites(call(p, kv.get, iv)[0], kv.t, sub(kv.get, iv), level+1, depth+1, fmt.Sprintf("%s%s(%d)/", path, kv.nm, i), r, c, out)
+			}
+		}
+	}
+}
+
+// mapDepthOfChange: the number of multimaps enclosing the changed region of a dump (the minimum
+// over its first and its last differing position; 0 = a direct field of the struct).
+func mapDepthOfChange(a, b string) int {
+	i := 0
+	for i < len(a) && i < len(b) && a[i] == b[i] {
+		i++
+	}
+	j := 0
+	for j < len(a)-i && j < len(b)-i && a[len(a)-1-j] == b[len(b)-1-j] {
+		j++
+	}
+	depthAt := func(s string, pos int) int {
+		var st []byte
+		for k := 0; k < pos && k < len(s); k++ {
+			switch s[k] {
+			case '[':
+				st = append(st, s[k-1])
+			case ']':
+				st = st[:len(st)-1]
+			}
+		}
+		d := 0
+		for _, c := range st {
+			if c == 'M' {
+				d++
+			}
+		}
+		return d
+	}
+	return min(depthAt(a, i), depthAt(a, len(a)-j))
+}
+
 func frozenSection() {
 	r := rng.FromEnv(903)
-	rounds := 6
+	rounds := 4
 	if thorough {
-		rounds = 100
+		rounds = 40
 	}
+	modes := []string{"built", "empty", "copy", "clone"}
 	for _, name := range []string{"Resource", "Scope", "Metric"} {
 		t := types[name]
 		for round := 0; round < rounds; round++ {
-			note("case frozen/%s/%d", name, round)
-			cfg := &genCfg{fm: fPlain, maxDepth: 2, maxLen: 3}
-			p := newObj(t)
-			if round%3 != 0 {
-				fill(p, t, r, cfg, 0)
+			// odd rounds: nested containers (a KVList / array in an attribute value and below)
+			cfg := &genCfg{fm: fPlain, maxDepth: 2, maxLen: 2 + (round/2)%2}
+			if round%2 == 1 {
+				cfg.maxDepth, cfg.maxLen, cfg.deep = 4+(round/2)%2, 2, true
 			}
-			freezeObj(p)
-			note("nontrivial %x", hash("frozen"+stateOf(p, t)))
-			for k := 0; k < 12; k++ {
-				s0 := stateOf(p, t)
-				// direct primitive field whose modified flag is not yet set: the one path on which
-				// the implementation is known to panic; any silent change there is a new failure.
-				f := t.fields[r.Intn(len(t.fields))]
-				unmodifiedPrim := false
-				var desc string
-				var res result
-				if f.t.prim() {
-					unmodifiedPrim = !call(p, "Is"+f.name+"Modified")[0].Bool()
-					m := meth(p, "Set"+f.name)
-					var l leaf
-					for {
-						l = genLeaf(r, f.t.kind, fPlain)
-						if l.canon() != leafOf(f.t.kind, call(p, f.name)[0]).canon() {
-							break
-						}
-					}
-					desc = name + ".Set" + f.name + "(" + l.canon() + ")"
-					res = guard(func() { m.Call([]reflect.Value{l.arg(m.Type().In(0))}) })
-				} else {
-					res = guard(func() { desc = mutate(call(p, f.name)[0], f.t, r, cfg, 1) })
-				}
-				s1 := stateOf(p, t)
-				stats["frozen-mutation-attempts"]++
-				if res.panicked {
-					stats["frozen-mutation-panics"]++
-				}
-				if s1 == s0 {
+			seed := r.U64()
+			for _, mode := range modes {
+				if mode == "empty" && round > 0 {
 					continue
 				}
-				switch {
-				case res.panicked:
-					propFail("frozen-mutation-before-panic", "frozen %s: %s panicked but the value changed: before=%s after=%s", name, desc, s0, s1)
-				case unmodifiedPrim:
-					propFail("frozen-"+name+"-silent-mutation-unmodified-field", "frozen %s: %s did not panic and changed the value: before=%s after=%s", name, desc, s0, s1)
-				default:
-					propFail("frozen-silent-mutation", "frozen %s: %s did not panic and changed the value: before=%s after=%s", name, desc, s0, s1)
+				note("case frozen/%s/%s/%d", name, mode, round)
+				// the subject (frozen) and its unfrozen twin, rebuilt for every call
+				build := func(freeze bool) reflect.Value {
+					p := newObj(t)
+					if mode != "empty" {
+						fill(p, t, rng.New(seed), cfg, 0)
+					}
+					if freeze {
+						switch mode {
+						case "clone":
+							p, _ = cloneObj(t, p)
+						case "copy":
+							d := newObj(t)
+							copyFromObj(d, p)
+							p = d
+						}
+						freezeObj(p)
+					}
+					return p
+				}
+				probe := build(false)
+				s0 := stateOf(probe, t)
+				if f0 := stateOf(build(true), t); f0 != s0 {
+					propFail("frozen-"+name+"-subject-differs", "frozen subject (%s) differs from its twin: %s vs %s", mode, f0, s0)
+					continue
+				}
+				note("nontrivial %x", hash("frozen"+mode+s0))
+				var sites []fsite
+				enumSites(probe, t, func(root reflect.Value) reflect.Value { return root }, 0, 0, name+".", rng.New(seed^0x9e3779b97f4a7c15), cfg, &sites)
+				// the struct's CopyFrom with a source that differs in ONE member only (the random
+				// source above differs in a primitive field first): copy<Multimap> / copy<Array> /
+				// copy<Oneof> below a frozen struct
+				for _, ms := range append([]fsite(nil), sites...) {
+					if !ms.member || strings.Contains(ms.desc, "CopyFrom(") {
+						continue
+					}
+					o := build(false)
+					if guard(func() { ms.do(o) }).panicked || stateOf(o, t) == s0 {
+						continue
+					}
+					sites = append(sites, fsite{desc: name + ".CopyFrom(twin after " + ms.desc + ")", level: ms.level, member: true,
+						do: func(root reflect.Value) { call(root, "CopyFrom", o) }})
+				}
+				stats["frozen-sites-"+mode] += len(sites)
+				if samples < 14 && round == 1 && mode == "built" {
+					samples++
+					var ds []string
+					for i, s := range sites {
+						if i < 12 {
+							ds = append(ds, s.desc)
+						}
+					}
+					note("sample frozen %s (%d calls): %s ...", s0, len(sites), strings.Join(ds, " ; "))
+				}
+				for _, site := range sites {
+					twin := build(false)
+					tres := guard(func() { site.do(twin) })
+					if tres.panicked {
+						propFail("frozen-"+name+"-twin-panic", "%s panicked on an UNFROZEN %s: %s value=%s", site.desc, name, tres.msg, s0)
+						continue
+					}
+					attempt := stateOf(twin, t) != s0
+					p := build(true)
+					res := guard(func() { site.do(p) })
+					s1 := stateOf(p, t)
+					stats["frozen-calls"]++
+					stats[fmt.Sprintf("frozen-calls-level-%d", site.level)]++
+					if attempt {
+						stats["frozen-mutation-attempts"]++
+					}
+					if res.panicked {
+						stats["frozen-mutation-panics"]++
+					}
+					switch {
+					case s1 != s0 && res.panicked && strings.Contains(site.desc, "CopyFrom("):
+						propFail("frozen-copyfrom-mutation-before-panic", "frozen %s (%s): %s panicked but the value changed: before=%s after=%s", name, mode, site.desc, s0, s1)
+					case s1 != s0 && res.panicked:
+						propFail("frozen-mutation-before-panic", "frozen %s (%s): %s panicked but the value changed: before=%s after=%s", name, mode, site.desc, s0, s1)
+					case s1 != s0 && mode == "clone" && site.member:
+						propFail("frozen-clone-silent-mutation", "frozen Clone() of %s: %s did not panic and changed the value: before=%s after=%s", name, site.desc, s0, s1)
+					case s1 != s0 && mapDepthOfChange(s0, s1) >= 2:
+						// everything that changed lies inside a multimap nested in a multimap value
+						propFail("frozen-nested-multimap-silent-mutation", "frozen %s (%s): %s (modifiedFields level %d) did not panic and changed the value: before=%s after=%s", name, mode, site.desc, site.level, s0, s1)
+					case s1 != s0:
+						propFail("frozen-silent-mutation", "frozen %s (%s): %s did not panic and changed the value: before=%s after=%s", name, mode, site.desc, s0, s1)
+					case attempt && !res.panicked:
+						propFail("frozen-mutation-no-panic", "frozen %s (%s): %s changes an unfrozen twin but was accepted without panic (value unchanged): %s", name, mode, site.desc, s0)
+					}
 				}
 			}
 		}
